@@ -87,6 +87,37 @@ func (w *World) probePasses(budget int) (changed bool, ok bool) {
 	return w.storeVersion() != ver, true
 }
 
+// c10SecondReference replays the scenario in a fresh undisturbed world under a random fair
+// schedule up to (and including) epoch and returns its projection.
+func c10SecondReference(w *World, spec RunSpec, scnPrefix []uint32, epoch int) (map[string]string, bool) {
+	cfg := &Config{Property: "C10-ref2", StopOn: "none", FaultFree: true, Faults: map[string]bool{}, NoFaultWeight: 200, MaxSteps: w.Cfg.MaxSteps, CalmBudget: w.Cfg.CalmBudget}
+	ref2 := NewWorld(cfg, choice.NewGen(spec.Seed, fmt.Sprintf("C10-ref2/%d", spec.Index)), choice.NewReplay(scnPrefix))
+	c10Scenario(ref2)
+	ref2.Monitors = nil
+	ref2.Cfg.FaultBudget = 0
+	for k := range ref2.Cfg.Faults {
+		delete(ref2.Cfg.Faults, k)
+	}
+	ref2.fairRandom = true
+	defer ref2.Shutdown()
+	ref2.StartProcesses()
+	for e := 0; e <= epoch; e++ {
+		if e > 0 {
+			ref2.applyNextUserOp()
+		}
+		if !ref2.settleWithResync() {
+			return nil, false
+		}
+	}
+	for round := 0; round < 3; round++ {
+		if changed, _ := ref2.probePasses(ref2.Cfg.CalmBudget); !changed {
+			break
+		}
+		ref2.Settle(ref2.Cfg.CalmBudget)
+	}
+	return ref2.Projection(), true
+}
+
 func planC10(w *World, spec RunSpec) {
 	c10Scenario(w)
 	// reference world: same scenario stream, no faults, fair scheduler throughout
@@ -203,7 +234,37 @@ func planC10(w *World, spec RunSpec) {
 			ref.Settle(ref.Cfg.CalmBudget)
 		}
 		refProj = ref.Projection()
-		if diff := DiffProjection(refProj, w.Projection()); len(diff) > 0 {
+		diff := DiffProjection(refProj, w.Projection())
+		if len(diff) > 0 {
+			// "The same end state as an undisturbed run" is only defined where undisturbed runs agree
+			// with each other: a second undisturbed run of the same scenario under another fair
+			// schedule is made, and a value the disturbed run shares with it is not a difference
+			// (one-way decisions such as early archival of an intermediate revision legitimately
+			// depend on who was available at which moment).
+			ref2Proj, ok := c10SecondReference(w, spec, scnPrefix, epoch)
+			if ok {
+				w.Stats.Probe("c10-second-reference-run")
+				got := w.Projection()
+				var kept []string
+				for _, d := range diff {
+					f := strings.Fields(d)
+					if len(f) >= 3 {
+						k := f[1] + " " + strings.TrimSuffix(f[2], ":")
+						gv, gok := got[k]
+						rv, rok := ref2Proj[k]
+						if gok == rok && gv == rv {
+							continue
+						}
+					}
+					kept = append(kept, d)
+				}
+				if len(kept) < len(diff) {
+					w.Stats.Probe("c10-undisturbed-runs-disagree")
+				}
+				diff = kept
+			}
+		}
+		if len(diff) > 0 {
 			n := len(diff)
 			if n > 4 {
 				diff = diff[:4]
